@@ -684,6 +684,24 @@ theorem firstQr_spec (O : Oracles) (p q : Int) (mnsize : Nat) (data : Bytes) :
     · obtain ⟨r', hr', h1, h2⟩ := firstQr_spec O p q mnsize data rs foo h
       exact ⟨r', by simp [hr'], h1, h2⟩
 
+theorem bitlen_le_of_lt (x k : Nat) (hk : 1 ≤ k) (h : x < 2 ^ k) : bitlen (x : Int) ≤ k := by
+  unfold bitlen
+  simp only [Int.natAbs_natCast]
+  by_cases h0 : x = 0
+  · simp [h0]; exact hk
+  · simp only [h0, if_false]
+    have := (Nat.log2_lt h0).mpr h
+    omega
+
+/-- for a non-zero value: at most `k` bits iff below `2^k` -/
+theorem bitlen_le_iff (x k : Nat) (hx : x ≠ 0) : bitlen (x : Int) ≤ k ↔ x < 2 ^ k := by
+  unfold bitlen
+  simp only [Int.natAbs_natCast, hx, if_false]
+  rw [← Nat.log2_lt hx]; omega
+
+theorem pow256 (n : Nat) : (256 : Nat) ^ n = 2 ^ (n * 8) := by
+  rw [show (256 : Nat) = 2 ^ 8 by norm_num, ← pow_mul, Nat.mul_comm]
+
 theorem two_pow_le_of_bitlen (x : Int) (hx : x ≠ 0) : 2 ^ (bitlen x - 1) ≤ x.natAbs := by
   unfold bitlen
   have : x.natAbs ≠ 0 := Int.natAbs_ne_zero.mpr hx
@@ -716,7 +734,13 @@ theorem verify_of_root (O : Oracles) (m : Int) (hm : 0 < m) (sig : Text) (hid : 
     have : v * v % m = (padValue O (bitlen m / 8) data r : Int) := by
       rw [hv, Int.emod_eq_of_lt (by omega) hlt]
     rw [this, Int.toNat_natCast]
-  rw [hfoo, if_neg hne]
+  have hfit : ¬ (padValue O (bitlen m / 8) data r = 0 ∨
+      bitlen ((padValue O (bitlen m / 8) data r : Nat) : Int) > bitlen m / 8 * 8) := by
+    have h1 := padValue_lt O (bitlen m / 8) (by omega) data r
+    rw [pow256] at h1
+    have := (bitlen_le_iff _ _ hne).mpr h1
+    omega
+  rw [hfoo, if_neg hfit]
   exact padOk_padValue O _ (by omega) data r
 
 /-- **`verify_sign`**: for every Blum key (`m = p·q`, `p ≡ q ≡ 3 (mod 4)`) with well-formed
@@ -826,14 +850,14 @@ theorem padOk_iff (O : Oracles) (mnsize : Nat) (hmn : mdsize + K0 < mnsize) (dat
 
 /-- **`verify_accepts_iff`**: the exact acceptance condition of `verify`.  A signature text is
     accepted iff it parses (magic `sig`, a key id that is a suffix id of this key, a base-62
-    value `v`), the modulus passes the two size guards, `v² mod m ≠ 0`, and the low `mnsize` bytes
-    of `v² mod m` are the PRab padding of the data for some seed. -/
+    value `v`), the modulus passes the two size guards, and `v² mod m` IS the (non-zero) PRab
+    padding of the data for some seed — the whole value, not only its low bytes. -/
 theorem verify_accepts_iff (O : Oracles) (m : Int) (sig : Text) (data : Bytes) (s : Text) :
     verify O m sig data s = true ↔
       ∃ v, parseValue "sig" sig s = some v ∧ bitlen m > bitlen m / 8 * 8 ∧ bitlen m / 8 > mdsize + K0 ∧
         (v * v % m).toNat ≠ 0 ∧
         ∃ r : Bytes, r.length = K0 ∧ (∀ b ∈ r, b < 256) ∧
-          (v * v % m).toNat % 256 ^ (bitlen m / 8) = padValue O (bitlen m / 8) data r := by
+          (v * v % m).toNat = padValue O (bitlen m / 8) data r := by
   unfold verify
   cases hp : parseValue "sig" sig s with
   | none => simp
@@ -848,14 +872,25 @@ theorem verify_accepts_iff (O : Oracles) (m : Int) (sig : Text) (data : Bytes) (
         · intro h; exact absurd h (by simp)
         · rintro ⟨-, h, -⟩; omega
       · by_cases h3 : (v * v % m).toNat = 0
-        · simp only [h1, h2, h3, if_true, if_false]; constructor
+        · simp only [h1, h2, h3, true_or, if_true, if_false]; constructor
           · intro h; exact absurd h (by simp)
           · rintro ⟨-, -, h, -⟩; exact absurd rfl h
-        · simp only [h1, h2, h3, if_false]
-          rw [padOk_iff O _ (by omega) data _]
-          constructor
-          · intro h; exact ⟨by omega, by omega, fun e => h3 e, h⟩
-          · rintro ⟨-, -, -, h⟩; exact h
+        · have hlt_iff := bitlen_le_iff (v * v % m).toNat (bitlen m / 8 * 8) h3
+          rw [← pow256] at hlt_iff
+          by_cases h4 : bitlen (((v * v % m).toNat : Nat) : Int) > bitlen m / 8 * 8
+          · simp only [h1, h2, h4, or_true, if_true, if_false]; constructor
+            · intro h; exact absurd h (by simp)
+            · rintro ⟨-, -, -, r, -, -, hr⟩
+              have := padValue_lt O (bitlen m / 8) (by omega) data r
+              rw [← hr] at this
+              have := hlt_iff.mpr this
+              omega
+          · have hlt : (v * v % m).toNat < 256 ^ (bitlen m / 8) := hlt_iff.mp (by omega)
+            simp only [h1, h2, h3, h4, or_self, if_false]
+            rw [padOk_iff O _ (by omega) data _, Nat.mod_eq_of_lt hlt]
+            constructor
+            · intro h; exact ⟨by omega, by omega, fun e => h3 e, h⟩
+            · rintro ⟨-, -, -, h⟩; exact h
 
 /-- acceptance depends on the value only through its square modulo `m` -/
 theorem verify_congr (O : Oracles) (m : Int) (sig : Text) (data : Bytes) (s s' : Text) (v v' : Int)
@@ -890,15 +925,41 @@ theorem verify_neg_root (O : Oracles) (m : Int) (sig : Text) (hid : KeyIdOk sig)
   · have : (v + m) * (v + m) = v * v + m * (2 * v + m) := by ring
     rw [this]; exact Int.modEq_iff_dvd.mpr ⟨-(2 * v + m), by ring⟩
 
-/-- **`verify_neg_root`** (b): two accepted signatures on the same data whose recovered seeds agree have
-    the same square modulo `m` up to the bytes above `mnsize`, which `verify` never looks at
-    (see the finding on the truncated export). -/
+/-- what an accepted signature says about its value: `v² mod m` is the padded value of the data
+    for the seed stored in it -/
 theorem verify_accepted_square (O : Oracles) (m : Int) (sig : Text) (data : Bytes) (s : Text)
     (h : verify O m sig data s = true) :
-    ∃ v r, parseValue "sig" sig s = some v ∧ r.length = K0 ∧
-      (v * v % m).toNat % 256 ^ (bitlen m / 8) = padValue O (bitlen m / 8) data r := by
-  obtain ⟨v, hv, -, -, -, r, hr, -, hfoo⟩ := (verify_accepts_iff O m sig data s).mp h
-  exact ⟨v, r, hv, hr, hfoo⟩
+    ∃ v r, parseValue "sig" sig s = some v ∧ r.length = K0 ∧ m ≠ 0 ∧
+      (v * v % m).toNat = padValue O (bitlen m / 8) data r := by
+  obtain ⟨v, hv, -, hmn, -, r, hr, -, hfoo⟩ := (verify_accepts_iff O m sig data s).mp h
+  refine ⟨v, r, hv, hr, ?_, hfoo⟩
+  rintro rfl
+  have : bitlen (0 : Int) = 1 := by decide
+  rw [this] at hmn
+  omega
+
+/-- **`verify_neg_root`** (b): any accepted `s'` with the same padded value as an accepted `s` has
+    `s'² ≡ s² (mod m)` — together with (a): the accepted values for one padded value are exactly
+    the square roots of that value. -/
+theorem verify_same_pad (m : Int) (hm : m ≠ 0) (v v' : Int)
+    (h : (v * v % m).toNat = (v' * v' % m).toNat) : v * v ≡ v' * v' [ZMOD m] := by
+  have h1 := Int.emod_nonneg (v * v) hm
+  have h2 := Int.emod_nonneg (v' * v') hm
+  show v * v % m = v' * v' % m
+  omega
+
+/-- **`verify_accepted_square'`**: two accepted signature values for the same data and the same
+    seed `r` have equal squares modulo `m` (before the repair of the truncated export only the
+    low `mnsize` bytes of the squares had to agree). -/
+theorem verify_accepted_square' (O : Oracles) (m : Int) (sig : Text) (data : Bytes) (s s' : Text)
+    (h : verify O m sig data s = true) (h' : verify O m sig data s' = true) :
+    ∃ v v' r r', parseValue "sig" sig s = some v ∧ parseValue "sig" sig s' = some v' ∧
+      (v * v % m).toNat = padValue O (bitlen m / 8) data r ∧
+      (v' * v' % m).toNat = padValue O (bitlen m / 8) data r' ∧
+      (padValue O (bitlen m / 8) data r = padValue O (bitlen m / 8) data r' → v * v ≡ v' * v' [ZMOD m]) := by
+  obtain ⟨v, r, hv, -, hm, hfoo⟩ := verify_accepted_square O m sig data s h
+  obtain ⟨v', r', hv', -, -, hfoo'⟩ := verify_accepted_square O m sig data s' h'
+  exact ⟨v, v', r, r', hv, hv', hfoo, hfoo', fun e => verify_same_pad m hm v v' (by rw [hfoo, hfoo', e])⟩
 
 /-- altered key id ⇒ refused: an accepted text carries a key id `kid` with
     `kid = keyid(keyid_size(kid))`, i.e. a suffix id of this very key (of any length, including 0) -/
@@ -943,9 +1004,10 @@ theorem verify_data_collision (O : Oracles) (m : Int) (sig : Text) (data data' :
     · simp [h1] at h
     by_cases h2 : bitlen m / 8 ≤ mdsize + K0
     · simp [h1, h2] at h
-    by_cases h3 : (v * v % m).toNat = 0
-    · simp [h1, h2, h3] at h
-    simp only [h1, h2, h3, if_false] at h h'
+    simp only [h1, h2, if_false] at h h'
+    by_cases h3 : (v * v % m).toNat = 0 ∨ bitlen (((v * v % m).toNat : Nat) : Int) > bitlen m / 8 * 8
+    · rw [if_pos h3] at h; simp at h
+    rw [if_neg h3] at h h'
     unfold padOk at h h'
     simp only [Bool.and_eq_true, beq_iff_eq] at h h'
     refine ⟨_, ?_, h.1.symm.trans h'.1⟩
@@ -1009,15 +1071,6 @@ theorem jacobi_emod_dvd (a m : Int) (p : Nat) (h : (p : Int) ∣ m) : jacobi (a 
 
 theorem jacobi_sq (p : Nat) (hp2 : p % 2 = 1) (v : Int) (hg : Int.gcd v p = 1) : jacobi (v * v) p = 1 := by
   rw [TmcgOpen.jacobi_eq_jacobiSym _ p hp2, ← sq]; exact jacobiSym.sq_one' hg
-
-theorem bitlen_le_of_lt (x k : Nat) (hk : 1 ≤ k) (h : x < 2 ^ k) : bitlen (x : Int) ≤ k := by
-  unfold bitlen
-  simp only [Int.natAbs_natCast]
-  by_cases h0 : x = 0
-  · simp [h0]; exact hk
-  · simp only [h0, if_false]
-    have := (Nat.log2_lt h0).mpr h
-    omega
 
 theorem eq_of_modEq_range (n v r : Int) (h : v ≡ r [ZMOD n]) (hv0 : 0 < v) (hvn : v < n)
     (hr0 : 0 ≤ r) (hrn : r ≤ n) : v = r := by
@@ -1125,12 +1178,10 @@ theorem saepOpen_saepValue (O : Oracles) (s1 : Nat) (value r : Bytes) (hne : sae
       (fit (2 * S0) (O.g (fit s1 r) (2 * S0))) ++ fit s1 r) := rfl
   have hvlt : saepValue O s1 value r < 256 ^ (s1 + 2 * S0) := by
     rw [hv]; have := beVal_lt _ hlt; rw [hlen] at this; exact this
-  have hbl : bitlen (saepValue O s1 value r : Int) / 8 ≤ s1 + 2 * S0 := by
-    have h2 : (256 : Nat) ^ (s1 + 2 * S0) = 2 ^ (8 * (s1 + 2 * S0)) := by
-      rw [show (256 : Nat) = 2 ^ 8 by norm_num, ← pow_mul]
-    have := bitlen_le_of_lt _ (8 * (s1 + 2 * S0)) (by omega) (by rw [← h2]; exact hvlt)
-    omega
-  rw [if_neg (by omega), Int.toNat_natCast, hv]
+  have hbl : bitlen (saepValue O s1 value r : Int) ≤ (s1 + 2 * S0) * 8 := by
+    rw [pow256] at hvlt
+    exact (bitlen_le_iff _ _ hne).mpr hvlt
+  rw [if_neg (by omega), Int.natAbs_natCast, hv]
   have hbb := beBytes_beVal _ hlt
   rw [hlen] at hbb
   rw [hbb]
@@ -1297,20 +1348,27 @@ theorem decrypt_accepts_iff (O : Oracles) (K : SecKey) (P : Pre) (s : Text) (x :
       · intro h; exact absurd h (by simp)
       · intro h; exact absurd h (by simp)
 
-/-- what an opening says about the root: its low `s1 + 2·S0` bytes are the SAEP encoding of the
-    returned value for the seed stored in the root -/
+/-- what an opening says about the root: it is non-zero, below `256^(s1 + 2·S0)`, and it IS the SAEP
+    encoding of the returned value for the seed stored in it (the whole root, not only its low bytes) -/
 theorem saepOpen_some (O : Oracles) (s1 : Nat) (ρ : Int) (x : Bytes) (h : saepOpen O s1 ρ = some x) :
-    ρ ≠ 0 ∧ bitlen ρ / 8 ≤ s1 + 2 * S0 ∧ x.length = S0 ∧
-      ∃ r : Bytes, r.length = s1 ∧ ρ.toNat % 256 ^ (s1 + 2 * S0) = saepValue O s1 x r := by
+    ρ ≠ 0 ∧ ρ.natAbs < 256 ^ (s1 + 2 * S0) ∧ x.length = S0 ∧
+      ∃ r : Bytes, r.length = s1 ∧ ρ.natAbs = saepValue O s1 x r := by
   unfold saepOpen at h
   simp only at h
   by_cases h0 : ρ = 0
   · simp [h0] at h
-  by_cases hb : bitlen ρ / 8 ≤ s1 + 2 * S0
+  rw [if_neg h0] at h
+  by_cases hb : bitlen ρ ≤ (s1 + 2 * S0) * 8
   swap
-  · simp [h0, hb] at h
-  simp only [h0, hb, not_true_eq_false, if_false] at h
-  set yy := beBytes (s1 + 2 * S0) ρ.toNat with hyy
+  · rw [if_pos hb] at h; simp at h
+  rw [if_neg (by omega)] at h
+  have hn0 : ρ.natAbs ≠ 0 := Int.natAbs_ne_zero.mpr h0
+  have hlt : ρ.natAbs < 256 ^ (s1 + 2 * S0) := by
+    rw [pow256]
+    apply (bitlen_le_iff _ _ hn0).mp
+    have : bitlen ((ρ.natAbs : Nat) : Int) = bitlen ρ := by unfold bitlen; simp only [Int.natAbs_natCast]
+    rw [this]; exact hb
+  set yy := beBytes (s1 + 2 * S0) ρ.natAbs with hyy
   have hyl : yy.length = s1 + 2 * S0 := beBytes_length _ _
   have hyb : ∀ b ∈ yy, b < 256 := beBytes_lt _ _
   set r := yy.drop (2 * S0) with hrdef
@@ -1325,33 +1383,75 @@ theorem saepOpen_some (O : Oracles) (s1 : Nat) (ρ : Int) (x : Bytes) (h : saepO
     xorBytes_lt _ _ (fun b hb' => hyb b (List.mem_of_mem_take hb')) (fit_lt _ _)
   by_cases hz : mt.drop S0 = List.replicate S0 0
   swap
-  · simp [hz] at h
-  simp only [hz, if_true, Option.some.injEq] at h
+  · rw [if_neg hz] at h; simp at h
+  rw [if_pos hz] at h
+  simp only [Option.some.injEq] at h
   have hxl : x.length = S0 := by rw [← h, List.length_take, hml]; omega
-  refine ⟨h0, hb, hxl, r, hrl, ?_⟩
+  refine ⟨h0, hlt, hxl, r, hrl, ?_⟩
   unfold saepValue
   simp only
   rw [fit_id s1 r hrl hrb, fit_id S0 x hxl (by rw [← h]; exact fun b hb' => hmb b (List.mem_of_mem_take hb'))]
   have hsplit : x ++ List.replicate S0 0 = mt := by rw [← h, ← hz, List.take_append_drop]
-  rw [hsplit, ← hgdef, hmt, xorBytes_cancel _ _ (by rw [htl, hg]), hrdef, List.take_append_drop, hyy, beVal_beBytes]
+  rw [hsplit, ← hgdef, hmt, xorBytes_cancel _ _ (by rw [htl, hg]), hrdef, List.take_append_drop, hyy, beVal_beBytes,
+    Nat.mod_eq_of_lt hlt]
 
-/-- an accepted ciphertext: some square root of its value carries the SAEP encoding of the result in
-    its low bytes; a key id other than a suffix id of this key is refused (`parseValue_keyid`) -/
+/-- `decrypt` opens the text `s` to `x` through the root `ρ` -/
+def OpensVia (O : Oracles) (K : SecKey) (s : Text) (ρ : Int) (x : Bytes) : Prop :=
+  ∃ cv, parseValue "enc" K.sig s = some cv ∧ ρ * ρ ≡ cv [ZMOD K.m] ∧
+    saepOpen O (bitlen K.m / 8 - 2 * S0) ρ = some x
+
+/-- an accepted ciphertext: `decrypt` opened it through a square root `ρ` of its value that is below
+    `256^rabin_s` and IS the SAEP encoding of the result; a key id other than a suffix id of
+    this key is refused (`parseValue_keyid`) -/
 theorem decrypt_accepted (O : Oracles) (K : SecKey) (P : Pre) (hK : BlumKey K) (hP : PreOk K P)
     (s : Text) (x : Bytes) (h : decrypt O K P s = some x) :
-    ∃ cv ρ r, parseValue "enc" K.sig s = some cv ∧ ρ * ρ ≡ cv [ZMOD K.m] ∧ r.length = bitlen K.m / 8 - 2 * S0 ∧
-      ρ.toNat % 256 ^ (bitlen K.m / 8 - 2 * S0 + 2 * S0) = saepValue O (bitlen K.m / 8 - 2 * S0) x r := by
+    ∃ ρ r, OpensVia O K s ρ x ∧ ρ ≠ 0 ∧ ρ.natAbs < 256 ^ (bitlen K.m / 8 - 2 * S0 + 2 * S0) ∧
+      r.length = bitlen K.m / 8 - 2 * S0 ∧ ρ.natAbs = saepValue O (bitlen K.m / 8 - 2 * S0) x r := by
   obtain ⟨-, -, -, cv, hcv, hqr, r1, r2, r3, r4, hroots, hfind⟩ := (decrypt_accepts_iff O K P s x).mp h
   obtain ⟨ρ, hρm, hρo⟩ := List.exists_of_findSome?_eq_some hfind
-  obtain ⟨-, -, -, r, hr, hval⟩ := saepOpen_some O _ ρ x hρo
+  obtain ⟨hne, hlt, -, r, hr, hval⟩ := saepOpen_some O _ ρ x hρo
   obtain ⟨r1', r2', r3', r4', hroots', s1', s2', s3', s4'⟩ := sqrtmnFastAll_sq K P hK hP _ hqr
   rw [hroots] at hroots'
   simp only [Except.ok.injEq, Prod.mk.injEq] at hroots'
   obtain ⟨e1, e2, e3, e4⟩ := hroots'
   subst e1 e2 e3 e4
-  refine ⟨cv, ρ, r, hcv, ?_, hr, hval⟩
+  refine ⟨ρ, r, ⟨cv, hcv, ?_, hρo⟩, hne, hlt, hr, hval⟩
   simp only [List.mem_cons, List.not_mem_nil, or_false] at hρm
   rcases hρm with rfl | rfl | rfl | rfl <;> assumption
+
+/-- **`decrypt_unique_ciphertext`**: the ciphertext is determined by the root it is opened through:
+    two texts opened through the same root carry the same ciphertext value modulo `m` (`c = x² mod m`)
+    and the same result.  Since an opening root is the SAEP encoding itself (`saepOpen_some`),
+    the former high-bits malleability — another ciphertext `(x + k·256^rabin_s)² mod m` with
+    the same plaintext — is gone. -/
+theorem decrypt_unique_ciphertext (O : Oracles) (K : SecKey) (s s' : Text) (ρ : Int) (x x' : Bytes)
+    (h : OpensVia O K s ρ x) (h' : OpensVia O K s' ρ x') :
+    x = x' ∧ ∃ cv cv', parseValue "enc" K.sig s = some cv ∧ parseValue "enc" K.sig s' = some cv' ∧
+      cv ≡ cv' [ZMOD K.m] := by
+  obtain ⟨cv, hcv, hsq, ho⟩ := h
+  obtain ⟨cv', hcv', hsq', ho'⟩ := h'
+  refine ⟨?_, cv, cv', hcv, hcv', hsq.symm.trans hsq'⟩
+  rw [ho] at ho'
+  exact Option.some.inj ho'
+
+/-- the same in terms of what was encrypted: two accepted ciphertexts that open to the same value
+    with the same seed have the same ciphertext value modulo `m` -/
+theorem decrypt_same_encoding (O : Oracles) (K : SecKey) (P : Pre) (hK : BlumKey K) (hP : PreOk K P)
+    (s s' : Text) (x : Bytes) (h : decrypt O K P s = some x) (h' : decrypt O K P s' = some x) :
+    ∃ cv cv' r r', parseValue "enc" K.sig s = some cv ∧ parseValue "enc" K.sig s' = some cv' ∧
+      cv ≡ (saepValue O (bitlen K.m / 8 - 2 * S0) x r : Int) * (saepValue O (bitlen K.m / 8 - 2 * S0) x r : Int) [ZMOD K.m] ∧
+      cv' ≡ (saepValue O (bitlen K.m / 8 - 2 * S0) x r' : Int) * (saepValue O (bitlen K.m / 8 - 2 * S0) x r' : Int) [ZMOD K.m] ∧
+      (saepValue O (bitlen K.m / 8 - 2 * S0) x r = saepValue O (bitlen K.m / 8 - 2 * S0) x r' → cv ≡ cv' [ZMOD K.m]) := by
+  obtain ⟨ρ, r, ⟨cv, hcv, hsq, -⟩, -, -, -, hval⟩ := decrypt_accepted O K P hK hP s x h
+  obtain ⟨ρ', r', ⟨cv', hcv', hsq', -⟩, -, -, -, hval'⟩ := decrypt_accepted O K P hK hP s' x h'
+  have e : ∀ (z : Int) (n : Nat), z.natAbs = n → z * z = (n : Int) * (n : Int) := by
+    intro z n hz
+    rw [← hz, ← Int.natAbs_mul_self (a := z)]; push_cast; rfl
+  have c1 : cv ≡ (saepValue O (bitlen K.m / 8 - 2 * S0) x r : Int) * (saepValue O (bitlen K.m / 8 - 2 * S0) x r : Int) [ZMOD K.m] := by
+    rw [← e ρ _ hval]; exact hsq.symm
+  have c2 : cv' ≡ (saepValue O (bitlen K.m / 8 - 2 * S0) x r' : Int) * (saepValue O (bitlen K.m / 8 - 2 * S0) x r' : Int) [ZMOD K.m] := by
+    rw [← e ρ' _ hval']; exact hsq'.symm
+  exact ⟨cv, cv', r, r', hcv, hcv', c1, c2, fun hh => c1.trans (by rw [hh]; exact c2.symm)⟩
 
 /-! ### `check`: the stage counts of the NIZK proof -/
 
@@ -1498,17 +1598,19 @@ theorem check_stage_counts (O : Oracles) (isPrime : Int → Bool) (K : PubKey) (
       4 + n1 + n2 + n3 ≤ K.nizk.count '^' := by
   unfold check at h
   have hc : checkNizk O K fuel = .ok true := by
+    by_cases c0 : K.m ≤ 0
+    · simp [c0] at h
     by_cases c1 : K.m % 2 = 0
-    · simp [c1] at h
+    · simp [c0, c1] at h
     by_cases c2 : kronecker K.y K.m ≠ 1
-    · simp [c1, c2] at h
+    · simp [c0, c1, c2] at h
     by_cases c3 : isPrime K.m = true
-    · simp [c1, c2, c3] at h
+    · simp [c0, c1, c2, c3] at h
     by_cases c4 : ¬ verify O K.m K.sig (bytesOf (selfData K)) K.sig = true
-    · simp [c1, c2, c3, c4] at h
+    · simp [c0, c1, c2, c3, c4] at h
     by_cases c5 : fermatReject K.m = true
-    · simp [c1, c2, c3, c4, c5] at h
-    simpa [c1, c2, c3, c4, c5, hn] using h
+    · simp [c0, c1, c2, c3, c4, c5] at h
+    simpa [c0, c1, c2, c3, c4, c5, hn] using h
   unfold checkNizk at hc
   simp only at hc
   cases h0 : Codec.cm K.nizk "nzk" '^' with
